@@ -366,6 +366,7 @@ def _check_dispatcher(ctx, prog, root):
     connect_variants, plain_variants = set(), set()
     if ext is not None:
         connect_variants, plain_variants = _check_extractor(ctx, prog, ext, enum_path, tunnel_variants)
+        _h7_authority_cut_first(ctx, ext)
     for v in sorted(tunnel_variants):
         blocks = arm_blocks(v)
         oks = [blk for (blk, l, op) in okv if blk in blocks]
@@ -951,3 +952,31 @@ def _check_tables(ctx, prog):
     if consts:
         v = consts[0].get("int")
         ctx.ob("H6", consts[0]["path"], "socks5-version-constant", loc(consts[0]["sp"]), v in (5, "5"), f"VERSION = {v}", ordinal=False)
+
+
+AUTHORITY_DELIMS = {58: ":", 93: "]", 91: "[", 64: "@"}
+
+
+def _h7_authority_cut_first(ctx, eb):
+    """H7: in an absolute-form target the authority ends at the first '/' behind "://". A search for a delimiter that only has meaning INSIDE the
+    authority (':' port, '[' ']' literal, '@' userinfo) must run on the target after that cut: if it can still be followed by the '/' search it
+    has looked at the path as well, and a path that contains the delimiter (`http://host/@user`, `http://host/a:b`) moves the host or port."""
+    searches = []
+    for (blk, c, t) in eb.calls():
+        if c.method in ("find", "rfind", "split_once", "rsplit_once", "split", "rsplit", "splitn", "rsplitn", "rmatch_indices", "match_indices") and len(t["args"]) > 1 and "str" in (c.self_s or c.name):
+            k = op_const(t["args"][1])
+            if k is None:
+                continue
+            pat = k.get("int") if k.get("ty") == "char" else k.get("str")
+            searches.append((blk, c, t, pat))
+    cuts = [x for x in searches if x[3] == 47 or x[3] == "/"]
+    inner = [x for x in searches if x[3] in AUTHORITY_DELIMS or (isinstance(x[3], str) and x[3] in AUTHORITY_DELIMS.values())]
+    ctx.floor("H7", "searches for authority-internal delimiters in the extractor", 2, len(inner))
+    ctx.floor("H7", "path-cut search ('/') in the extractor", 1, len(cuts))
+    for (blk, c, t, pat) in inner:
+        early = [cb for (cb, _, _, _) in cuts if cb != blk and eb.can_reach(blk, cb)]
+        ch = AUTHORITY_DELIMS.get(pat, pat)
+        ctx.ob("H7", eb.defp, f"authority-delimiter-searched-after-path-cut:{ch}", loc(t["sp"]), not early,
+               f"the search for '{ch}' runs after the target was cut at the first '/'" if not early else
+               f"the search for '{ch}' can still be followed by the search for the first '/': it ran over the path as well, so a '{ch}' in the path of an absolute-form request "
+               "moves the start of the host (or the port) — the client then tunnels to a host taken from the path")
